@@ -5,6 +5,7 @@ import (
 	"encoding/hex"
 	"errors"
 	"fmt"
+	"sync"
 
 	blsu "github.com/protolambda/bls12-381-util"
 	"github.com/protolambda/ztyp/codec"
@@ -71,12 +72,17 @@ func (p *BLSPubkey) Pubkey() (*blsu.Pubkey, error) {
 	return &pub, nil
 }
 
+// CachedPubkey is shared between all users of a PubkeyCache: the lazily decompressed key is guarded by a mutex
+// and never leaves it (Pubkey returns a copy). A CachedPubkey must not be copied after first use.
 type CachedPubkey struct {
 	Compressed   BLSPubkey
+	mu           sync.Mutex
 	decompressed *blsu.Pubkey
 }
 
 func (c *CachedPubkey) Pubkey() (*blsu.Pubkey, error) {
+	c.mu.Lock()
+	defer c.mu.Unlock()
 	if c.decompressed == nil {
 		pub, err := c.Compressed.Pubkey()
 		if err != nil {
@@ -84,7 +90,10 @@ func (c *CachedPubkey) Pubkey() (*blsu.Pubkey, error) {
 		}
 		c.decompressed = pub
 	}
-	return c.decompressed, nil
+	// Hand out a copy: the pairing library normalises points in place (kilic Engine.AddPair and G1.Affine write to
+	// their arguments), so one *blsu.Pubkey must not be used by two goroutines at the same time.
+	pub := *c.decompressed
+	return &pub, nil
 }
 
 func ViewPubkey(pub *BLSPubkey) *BLSPubkeyView {
